@@ -937,6 +937,9 @@ func (x *Exec) loop(s ast.Stmt, st *State, cx *Ctx, k func(*State)) {
 		for _, a := range autos {
 			h.assume(x.originHolds(h, a.val))
 		}
+		if len(invs) == 0 && len(autos) == 0 {
+			h.weak = true
+		}
 		h.note(fmt.Sprintf("loop[%d]@%s:head", ord, x.line(s)))
 		outerPolls := h.polls
 		h.polls = nil
